@@ -183,6 +183,8 @@ def program_text(decls):
             out.append(f"int {d[1]} = {pp(d[2], names)};")
         elif d[0] == "bundle":
             out.append(f"Bundle {d[1]} = {pp_bundle(d[2], names)};")
+        elif d[0] == "source":
+            pass
     return "\n".join(out) + "\n"
 
 
@@ -253,7 +255,7 @@ def coq_decls(decls, sig, input_vars, exposed):
     for d in decls:
         if d[0] == "in":
             ty = "None" if d[2] is None else f"(Some {sig.p(d[2])})"
-            if d[1] in exposed or d[1].startswith("_m"):  # state variables of memory cells are always free
+            if d[1] in exposed or d[1].startswith("_"):  # state variables of memory cells / source contents are always free
                 out.append(f"(DIn {ty} {input_vars[d[1]]}%positive)")
             else:
                 out.append(f"(DSig (ELit {ty} (EInt {zc(d[3])})))")
@@ -261,6 +263,8 @@ def coq_decls(decls, sig, input_vars, exposed):
             out.append(f"(DSig {coq_expr(d[2], sig)})")
         elif d[0] == "bundle":
             out.append(f"(DBundle {coq_bexpr(d[2], sig)})")
+        elif d[0] == "source":
+            out.append("(DSource [" + "; ".join(f"({sig.p(s)}, {input_vars[decls[i][1]]}%positive)" for s, i in d[2]) + "])")
         else:
             out.append(f"(DInt {coq_expr(d[2], sig)})")
     return "[" + ";\n   ".join(out) + "]"
@@ -274,7 +278,7 @@ def unfolded_size(decls):
     """size of every declaration's expression tree with variable references expanded"""
     sizes = []
     for d in decls:
-        if d[0] in ("in", "bundle"):
+        if d[0] in ("in", "bundle", "source"):
             sizes.append(3)
             continue
 
